@@ -871,6 +871,272 @@ def gen_cross_case(rng):
             "spec": rng.choice(["flat", "step", "quad"])}
 
 
+# ------------------------------------------- time-dependent inputs / history
+def _lin_t(t):
+    return float(t)
+
+
+def _lin_t_args(t, w0):
+    return float(w0) * float(t)
+
+
+def _close(a, b, exact):
+    a, b = np.asarray(a), np.asarray(b)
+    if a.shape != b.shape:
+        return False
+    if exact and np.array_equal(a, b):
+        return True
+    scale = max(1.0, float(np.abs(b).max()) if b.size else 1.0)
+    # numerical validation layer (eigen-decomposition is LAPACK): a wrong basis
+    # change is O(1); rounding is ~1e-13
+    return bool(np.abs(a - b).max() <= 1e-9 * scale)
+
+
+def gen_hist_case(rng, exact):
+    n = rng.choice([2, 3])
+    for _ in range(50):
+        H0 = np.diag([complex(rng.randint(-3, 3)) for _ in range(n)])
+        if exact:
+            # commuting diagonal parts with level crossings between the sample
+            # times: the (sorted) eigenvector matrix changes by a permutation
+            H1 = np.diag([complex(rng.randint(-3, 3)) for _ in range(n)])
+        else:
+            H1 = rand_mat(rng, n, n, "herm")
+            if np.allclose(H0 @ H1, H1 @ H0):
+                continue
+        orders = set()
+        ok = True
+        for t in range(4):
+            d = np.diag(H0 + t * H1).real if exact else np.linalg.eigvalsh(H0 + t * H1)
+            if exact and len(set(d)) < n:
+                ok = False
+            orders.add(tuple(np.argsort(d, kind="stable")))
+        if ok and (not exact or len(orders) > 1):
+            break
+    A0 = rand_mat(rng, n, n, "herm")
+    A1 = rand_mat(rng, n, n, "herm") if rng.random() < 0.4 else None
+    times = [rng.choice([0, 1, 2, 3]) for _ in range(5)]
+    if len(set(times)) < 3:
+        times = rng.sample([0, 1, 2, 3], 4) + [rng.choice([0, 1, 2, 3])]
+    return {"n": n, "exact": exact, "H0": mat_json(H0), "H1": mat_json(H1),
+            "A0": mat_json(A0), "A1": None if A1 is None else mat_json(A1),
+            "B": mat_json(rand_mat(rng, n, n, "any")),
+            "cs": [mat_json(rand_mat(rng, n, n))] if rng.random() < 0.4 else [],
+            "times": times, "spec": rng.choice(["flat", "step", "quad"]),
+            "sec": rng.choice([-1, -1, 0.1]),
+            "kind": rng.choice(["tensor", "tensor", "brterm", "brcrossterm"]),
+            "args": rng.random() < 0.5,
+            "S": mat_json(rand_mat(rng, n * n, n * n, "any")),
+            "X": mat_json(rand_mat(rng, n, n, "any"))}
+
+
+def _spec_coeff(kind):
+    import qutip
+    f = spectrum_fn(kind)
+    return qutip.coefficient(lambda t, w: f(w), args={"w": 0})
+
+
+def _hist_build(case, meth, fb, tconst=None, w0=1.0, spectra=None):
+    """the generator as ONE time-dependent object (tconst None) or built from
+    the constant operators H(t), A(t) (fresh object)."""
+    import qutip
+    from qutip.core.blochredfield import bloch_redfield_tensor, brterm, brcrossterm
+    H0, H1 = mat_unjson(case["H0"]), mat_unjson(case["H1"])
+    A0 = mat_unjson(case["A0"])
+    A1 = None if case["A1"] is None else mat_unjson(case["A1"])
+    B = qutip.Qobj(mat_unjson(case["B"]))
+    cs = [qutip.Qobj(mat_unjson(c)) for c in case["cs"]]
+    spec = spectra if spectra is not None else _spec_coeff(case["spec"])
+    if tconst is None:
+        if case["args"]:
+            H = qutip.QobjEvo([qutip.Qobj(H0), [qutip.Qobj(H1), _lin_t_args]], args={"w0": 1.0})
+        else:
+            H = qutip.QobjEvo([qutip.Qobj(H0), [qutip.Qobj(H1), _lin_t]])
+        A = qutip.Qobj(A0) if A1 is None else qutip.QobjEvo(
+            [qutip.Qobj(A0), [qutip.Qobj(A1), _lin_t]])
+    else:
+        H = qutip.Qobj(H0 + w0 * tconst * H1)
+        A = qutip.Qobj(A0 if A1 is None else A0 + tconst * A1)
+    kw = dict(sec_cutoff=case["sec"], fock_basis=fb, br_computation_method=meth)
+    if case["kind"] == "tensor":
+        return bloch_redfield_tensor(H, [(A, spec)], c_ops=cs, **kw)
+    if case["kind"] == "brterm":
+        return brterm(H, A, spec, **kw)
+    return brcrossterm(H, A, B, spec, **kw)
+
+
+def check_hist_case(case):
+    """time-dependent H (and a_op): R(t) evaluated at several times in a given
+    ORDER on one object vs the tensor of the constant operators; structural
+    laws; matmul on operator-kets and superoperators; argument replacement."""
+    import qutip
+    bad = []
+    n, exact = case["n"], case["exact"]
+    S = mat_unjson(case["S"])
+    X = mat_unjson(case["X"])
+    I_vec = vec(np.eye(n, dtype=complex)).conj().T
+
+    def add(site, sig, what):
+        if not any(b[0] == site and b[1] == sig for b in bad):
+            bad.append((site, sig, what))
+
+    for meth in ("dense", "sparse", "matrix"):
+        for fb in (True, False):
+            tag = "%s/%s/fock_basis=%s" % (case["kind"], meth, fb)
+            try:
+                obj = _hist_build(case, meth, fb)
+                R, Vevo = (obj, None) if fb else obj
+                fresh = {}
+                for t in case["times"]:
+                    if t not in fresh:
+                        fo = _hist_build(case, meth, fb, tconst=t)
+                        fresh[t] = (fo.full(), None) if fb else (fo[0].full(), fo[1].full())
+                    M = R(float(t)).full()
+                    want, Vw = fresh[t]
+                    if not _close(M, want, exact):
+                        add("brtensor.time-dependent", "R(t)-differs-from-constant-tensor",
+                            "%s: R(t=%s) of the time-dependent object (times evaluated in "
+                            "order %s) differs from the tensor built from the constant H(t), "
+                            "a_op(t)" % (tag, t, case["times"]))
+                    if not fb and not _close(Vevo(float(t)).full(), Vw, exact):
+                        add("brtensor.time-dependent", "evecs(t)",
+                            "%s: returned eigenvectors at t=%s differ from those of H(t)" % (tag, t))
+                    if not _close(I_vec @ M, np.zeros((1, n * n)), False):
+                        add("brtensor.time-dependent", "trace-functional",
+                            "%s: vec(I)^dagger R(t=%s) != 0" % (tag, t))
+                    if case["kind"] != "brcrossterm":
+                        for Y in basis_ops(n, n):
+                            a = unvec(M @ vec(Y.conj().T), n, n)
+                            b = unvec(M @ vec(Y), n, n).conj().T
+                            if not _close(a, b, False):
+                                add("brtensor.time-dependent", "hermiticity",
+                                    "%s: R(t=%s)(Y^dagger) != R(t=%s)(Y)^dagger" % (tag, t, t))
+                                break
+                # applying the object to an operator-ket and to a superoperator
+                for t in reversed(case["times"]):
+                    want = fresh[t][0]
+                    got = R.matmul(float(t), qutip.operator_to_vector(qutip.Qobj(X))).full()
+                    if not _close(got, want @ vec(X), False):
+                        add("brtensor.time-dependent", "matmul-operator-ket",
+                            "%s: R.matmul(t=%s, vec X) != R(t) vec X" % (tag, t))
+                    Sq = qutip.Qobj(S, dims=R.dims)
+                    got = R.matmul(float(t), Sq).full()
+                    if not _close(got, want @ S, False):
+                        add("brtensor.time-dependent", "matmul-superoperator",
+                            "%s: R.matmul(t=%s, S) != R(t) S for a superoperator S" % (tag, t))
+                # argument replacement (QobjEvo with args)
+                if case["args"]:
+                    t = case["times"][0] or 1
+                    base = R(float(t)).full()
+                    try:
+                        same = R(float(t), w0=1.0).full()
+                        if not _close(same, base, False):
+                            # the Bloch-Redfield part rebuilt in the other basis?
+                            ct = dict(case, kind="brterm" if case["kind"] == "tensor"
+                                      else case["kind"])
+                            t_this = _hist_build(ct, meth, fb, tconst=t)
+                            t_other = _hist_build(ct, meth, not fb, tconst=t)
+                            t_this = t_this.full() if fb else t_this[0].full()
+                            t_other = t_other.full() if not fb else t_other[0].full()
+                            sig = ("drops-eig_basis"
+                                   if _close(same - base, t_other - t_this, False)
+                                   else "same-arguments-different-tensor")
+                            add("brtensor.replace_arguments", sig,
+                                "%s: R(t, w0=1) with the arguments it already has differs "
+                                "from R(t)%s" % (tag, " (it is the tensor in the other output "
+                                                 "basis: replace_arguments rebuilds the element "
+                                                 "without eig_basis/dtype)"
+                                                 if sig.startswith("drops") else ""))
+                        two = R(float(t), w0=2.0).full()
+                        fo = _hist_build(case, meth, fb, tconst=t, w0=2.0)
+                        fo = fo.full() if fb else fo[0].full()
+                        if not _close(two, fo, False) and _close(same, base, False):
+                            add("brtensor.replace_arguments", "new-arguments",
+                                "%s: R(t, w0=2) differs from the tensor of H0 + 2 t H1" % tag)
+                    except Exception as ex:      # noqa: BLE001
+                        sig = ("crossterm-rebuilt-as-term:" + type(ex).__name__
+                               if case["kind"] == "brcrossterm" else "raises:" + type(ex).__name__)
+                        add("brtensor.replace_arguments", sig,
+                            "%s: evaluating with explicit arguments raises %r" % (tag, ex))
+            except Exception as ex:      # noqa: BLE001
+                add("brtensor.time-dependent", "raises:" + type(ex).__name__,
+                    "%s raised %r" % (tag, ex))
+    return bad
+
+
+def check_spectra_args(case):
+    """callable spectrum f(w) (SpectraCoefficient) + new arguments."""
+    import qutip
+    c2 = dict(case, kind="brterm", args=True)
+    try:
+        R = _hist_build(c2, "dense", True, spectra=spectrum_fn(case["spec"]))
+        a = R(1.0).full()
+        b = R(1.0, w0=1.0).full()
+        if not _close(a, b, False):
+            return [("brtools.SpectraCoefficient.replace_arguments", "different-tensor",
+                     "brterm with a callable spectrum: R(t, w0=1) != R(t)")]
+    except AttributeError as ex:
+        return [("brtools.SpectraCoefficient.replace_arguments", "AttributeError:replace",
+                 "brterm with a callable spectrum f(w): evaluating with explicit arguments "
+                 "raises %r (Coefficient has replace_arguments, not replace)" % (ex,))]
+    except Exception as ex:      # noqa: BLE001
+        return [("brtools.SpectraCoefficient.replace_arguments", "raises:" + type(ex).__name__,
+                 "raises %r" % (ex,))]
+    return []
+
+
+def check_transform_history(case):
+    """_EigenBasisTransform used directly: to_eigbasis / from_eigbasis of kets,
+    operators, operator-kets and superoperators at successive times on one
+    object vs a fresh transform of the constant H(t)."""
+    import qutip
+    from qutip.core import data as _data
+    from qutip.core._brtools import _EigenBasisTransform
+    bad = []
+    n, exact = case["n"], case["exact"]
+    H0, H1 = qutip.Qobj(mat_unjson(case["H0"])), qutip.Qobj(mat_unjson(case["H1"]))
+    Hevo = qutip.QobjEvo([H0, [H1, _lin_t]])
+    X = mat_unjson(case["X"])
+    S = mat_unjson(case["S"])
+    shapes = {"ket": X[:, :1].copy(), "oper": X, "operator-ket": vec(X), "super": S}
+    for first in ("super", "oper"):
+        ev = _EigenBasisTransform(Hevo)
+        prevV = None
+        for t in case["times"]:
+            fr = _EigenBasisTransform(qutip.QobjEvo(Hevo(float(t))))
+            order = [first] + [k for k in shapes if k != first]
+            for k in order:
+                d = _data.Dense(shapes[k])
+                try:
+                    got = ev.to_eigbasis(float(t), d).to_array()
+                    want = fr.to_eigbasis(0.0, d).to_array()
+                    back = ev.from_eigbasis(float(t), _data.Dense(want)).to_array()
+                except Exception as ex:      # noqa: BLE001
+                    bad.append(("brtools._EigenBasisTransform", "raises:" + type(ex).__name__,
+                                "to/from_eigbasis(%s) raised %r" % (k, ex)))
+                    return bad
+                if not _close(got, want, exact) or not _close(back, shapes[k], False):
+                    V = fr.evecs(0.0).to_array()
+                    sig = "differs:" + k
+                    if k == "super" and prevV is not None:
+                        Cinv = np.kron(prevV.T, V)     # kron_transpose(V(t_prev)^dagger, V(t))
+                        stale = Cinv.conj().T @ S @ Cinv
+                        if _close(got, stale, False):
+                            sig = "stale-inverse:super"
+                    bad.append(("brtools._EigenBasisTransform.history", sig,
+                                "to_eigbasis(t=%s, %s) after earlier times %s differs from a "
+                                "fresh transform of H(t)%s" % (
+                                    t, k, case["times"],
+                                    ": _inv(t) returns the cached adjoint eigenvectors of the "
+                                    "previous time (the cache is only cleared by evecs(t), which "
+                                    "_S_converter_inverse evaluates after _inv(t))"
+                                    if sig.startswith("stale") else "")))
+                    return bad
+            prevV = fr.evecs(0.0).to_array().conj().T.copy()
+            prevV = prevV  # V(t)^dagger
+    return bad
+
+
 # ---------------------------------------------------------------------- run
 def report(ctx, problems, detail):
     for site, sig, what in problems:
@@ -900,6 +1166,17 @@ def run_oracle(ctx, rng, terms, n_liou, n_small, n_br, n_brt, n_cross):
         case = gen_cross_case(rng)
         ctx.count_case(("cross", json.dumps(case, sort_keys=True)))
         report(ctx, check_cross_matmul(case), {"br_matmul": case})
+    n_hist = max(2, n_brt // 2)
+    dist["br_history"] = {"exact": 0, "numeric": 0}
+    for k in range(n_hist):
+        exact = (k % 2 == 0)
+        case = gen_hist_case(rng, exact)
+        dist["br_history"]["exact" if exact else "numeric"] += 1
+        ctx.count_case(("hist", json.dumps(case, sort_keys=True)))
+        report(ctx, check_hist_case(case), {"br_history": case})
+        report(ctx, check_transform_history(case), {"br_transform_history": case})
+        if k < 2:
+            report(ctx, check_spectra_args(case), {"br_spectra_args": case})
     return dist
 
 
@@ -1066,6 +1343,12 @@ def replay(ctx, payload):
         report(ctx, check_cterm_case(d["br_cterm"]), d)
     if "bloch_redfield_tensor" in d:
         report(ctx, check_brt_case(d["bloch_redfield_tensor"]), d)
+    if "br_history" in d:
+        report(ctx, check_hist_case(d["br_history"]), d)
+    if "br_transform_history" in d:
+        report(ctx, check_transform_history(d["br_transform_history"]), d)
+    if "br_spectra_args" in d:
+        report(ctx, check_spectra_args(d["br_spectra_args"]), d)
     if "br_matmul" in d:
         report(ctx, check_cross_matmul(d["br_matmul"]), d)
     if "malformed" in d:
